@@ -47,6 +47,7 @@ fn patch_component() -> BoxedStrategy<Vec<u8>> {
         3 => prop::sample::select(vec![
             &b"patch-local-x"[..], b"patch-a.orig", b"patch-a.rej", b"patch-a~", b"patch-2.7.6.tar.xz", b"foo.patch-1", b"emul-x",
             b"emul-linux-patch-a.orig", b"patch-aa", b"patch-src_main.c", b"emul-a-patch-b.tar.gz", b"xpatch-a", b"Patch-a",
+            b"patch-Makefile.target", b"patch-x.tar", b"patch-a.tardy.c", b"patch-local", b"patch-locale.c", b"patch-a.origin", b"patch-a.rejected", b"patch-~a",
         ]).prop_map(|s| s.to_vec()),
     ]
     .boxed()
